@@ -53,6 +53,13 @@ _time_mod.time = _tramp_time
 _random_mod.random = _tramp_random
 _os.urandom = _tramp_urandom
 
+# locks created by lomond code are real locks that report a self-deadlock (owner blocking on its own
+# non-reentrant lock) instead of hanging the shard; everybody else gets the real factory
+from . import schedlock as _schedlock  # noqa
+threading.Lock = _schedlock.lock_factory_for_callers('lomond')
+SelfDeadlock = _schedlock.SelfDeadlock
+DEADLOCKS = _schedlock.DEADLOCKS
+
 _SCHED_IMPORT = os.environ.get('VF_SCHED_IMPORT') == '1'
 if _SCHED_IMPORT:
     from .schedlock import patched_threading_factories as _ptf
